@@ -8,13 +8,13 @@ package pm
 // served by exactly one worker, one at a time).
 
 import (
-	"runtime"
 	"fmt"
 	"io"
 	"log"
 	"net"
 	"net/http"
 	"os"
+	"runtime"
 	"strings"
 	"sync"
 	"syscall"
